@@ -896,6 +896,11 @@ func runRenderCase(c sink, name string, r *rand.Rand, st stats) {
 		if allNoop && pc.pred == pMustErr {
 			seq = "musterr"
 		}
+		// the first patch that is not a no-op fails for another documented reason (its source is
+		// there, a transform or parameter is invalid): whatever its policy, the rendering fails
+		if allNoop && (pc.pred == pChainErr || pc.pred == pParamErr) {
+			seq = "failing:" + effectivePolicy(pc.p.Policy)
+		}
 		allNoop = false
 		break
 	}
@@ -942,6 +947,10 @@ func runRenderCase(c sink, name string, r *rand.Rand, st stats) {
 	case "musterr":
 		if o1.err == nil {
 			c.Violate("render:"+dir+"-required-missing-no-error", name, "a required patch with a missing source path rendered without error", w)
+		}
+	case "failing:Optional", "failing:Required", "failing:unknown":
+		if o1.err == nil {
+			c.Violate("render:"+dir+"-failing-patch-no-error:"+strings.TrimPrefix(seq, "failing:"), name, "the first effective patch fails (source present; invalid transform input or parameter), yet the rendering returned no error: the resource would be applied half-rendered", w)
 		}
 	}
 }
